@@ -76,10 +76,11 @@ where anyStaging : List Ex → Bool
 
 /-! ## front-end passes that precede staging -/
 
+mutual
 /-- `convert_macroexpand`: `f!(a…)` becomes `$(f(a…))` -/
 def convMacro : Ex → Ex
-  | .macroExpand f args => .escape (.app (convMacro f) (args.map fun a => convMacro a))
-  | .app f args => .app (convMacro f) (args.map fun a => convMacro a)
+  | .macroExpand f args => .escape (.app (convMacro f) (convMacroL args))
+  | .app f args => .app (convMacro f) (convMacroL args)
   | .lam ps b => .lam ps (convMacro b)
   | .letE x v b => .letE x (convMacro v) (convMacro b)
   | .letT xs v b => .letT xs (convMacro v) (convMacro b)
@@ -87,14 +88,24 @@ def convMacro : Ex → Ex
   | .ite c t e => .ite (convMacro c) (convMacro t) (convMacro e)
   | .thenE a b => .thenE (convMacro a) (convMacro b)
   | .assign l r => .assign (convMacro l) (convMacro r)
-  | .tup es => .tup (es.map fun a => convMacro a)
+  | .tup es => .tup (convMacroL es)
   | .proj e i => .proj (convMacro e) i
-  | .arr es => .arr (es.map fun a => convMacro a)
+  | .arr es => .arr (convMacroL es)
   | .block e => .block (convMacro e)
   | .feed x e => .feed x (convMacro e)
   | .bracket e => .bracket (convMacro e)
   | .escape e => .escape (convMacro e)
-  | e => e
+  | .flt b => .flt b
+  | .int i => .int i
+  | .str s => .str s
+  | .selfL => .selfL
+  | .now => .now
+  | .sr => .sr
+  | .var x => .var x
+def convMacroL : List Ex → List Ex
+  | [] => []
+  | e :: es => convMacro e :: convMacroL es
+end
 
 /-- `FeedId::get_name`: `none` = `FeedId::Global` -/
 def feedName : Option Nat → String
@@ -202,7 +213,7 @@ def trCode : Ex → Ex
   | .app f [a] => ap "code_app1" [trCode f, trCode a]
   | .app f [a, b] => ap "code_app2" [trCode f, trCode a, trCode b]
   | .app f (a :: b :: c :: rest) =>
-    ap "code_app" [trCode f, .arr (trCode a :: trCode b :: trCode c :: rest.map fun x => trCode x)]
+    ap "code_app" [trCode f, .arr (trCode a :: trCode b :: trCode c :: trCodeL rest)]
   | .lam [] body => ap "code_lam_finish_typed" [.arr [], .arr [], tyTag, trCode body]
   | .lam [p] body => ap "code_lam1_finish_typed" [.str p, tyTag, tyTag, trCode body]
   | .lam (p :: q :: ps) body =>
@@ -213,17 +224,20 @@ def trCode : Ex → Ex
   | .ite c t e => ap "code_if" [trCode c, trCode t, trCode e]
   | .thenE a b => ap "code_then" [trCode a, trCode b]
   | .assign l r => ap "code_assign" [trCode l, trCode r]
-  | .tup es => ap "code_tuple" [.arr (es.map fun x => trCode x)]
+  | .tup es => ap "code_tuple" [.arr (trCodeL es)]
   | .proj e i => ap "code_proj" [trCode e, .int i]
-  | .arr es => ap "code_array" [.arr (es.map fun x => trCode x)]
+  | .arr es => ap "code_array" [.arr (trCodeL es)]
   | .feed x e => ap "code_feed" [.str x, trCode e]
   | .block e => ap "code_block" [trCode e]
   | .macroExpand f args => .macroExpand f args         -- "desugared-only node in translate_code": left as is
+def trCodeL : List Ex → List Ex
+  | [] => []
+  | e :: es => trCode e :: trCodeL es
 /-- `translate_stage0`: stage-0 code is walked; a quote switches to `trCode` -/
 def trStage0 : Ex → Ex
   | .bracket e => trCode e
   | .escape e => .escape e                              -- "unexpected Escape at stage 0": left as is
-  | .app f args => .app (trStage0 f) (args.map fun x => trStage0 x)
+  | .app f args => .app (trStage0 f) (trStage0L args)
   | .lam ps b => .lam ps (trStage0 b)
   | .letE x v b => .letE x (trStage0 v) (trStage0 b)
   | .letT xs v b => .letT xs (trStage0 v) (trStage0 b)
@@ -231,9 +245,9 @@ def trStage0 : Ex → Ex
   | .ite c t e => .ite (trStage0 c) (trStage0 t) (trStage0 e)
   | .thenE a b => .thenE (trStage0 a) (trStage0 b)
   | .assign l r => .assign (trStage0 l) (trStage0 r)
-  | .tup es => .tup (es.map fun x => trStage0 x)
+  | .tup es => .tup (trStage0L es)
   | .proj e i => .proj (trStage0 e) i
-  | .arr es => .arr (es.map fun x => trStage0 x)
+  | .arr es => .arr (trStage0L es)
   | .block e => .block (trStage0 e)
   | .feed x e => .feed x (trStage0 e)
   | .flt b => .flt b
@@ -244,7 +258,42 @@ def trStage0 : Ex → Ex
   | .sr => .sr
   | .var x => .var x
   | .macroExpand f args => .macroExpand f args
+def trStage0L : List Ex → List Ex
+  | [] => []
+  | e :: es => trStage0 e :: trStage0L es
 end
+
+/-! ### nested tuple patterns (`translate_let_tuple_pattern`)
+
+`Ex.letT` has flat patterns; a nested pattern `let ((a, b), c) = v` inside quoted code is flattened by the translator
+with temporaries `__dt<n>` taken from a counter that is never reset (thread-local `DESUGAR_COUNTER`). Modelled apart,
+on already translated value / body, exactly like the Rust function. -/
+
+inductive Pat where
+  | single (x : String)
+  | placeholder
+  | tuple (ps : List Pat)
+deriving Repr, Inhabited
+
+def dtName (n : Nat) : String := "__dt" ++ toString n
+
+/-- first loop of `translate_let_tuple_pattern`: top-level names, work list of nested sub-patterns, counter -/
+def dtTop (n : Nat) : List Pat → List String × List (List Pat × String) × Nat
+  | [] => ([], [], n)
+  | .single x :: ps => let r := dtTop n ps; (x :: r.1, r.2.1, r.2.2)
+  | .placeholder :: ps => let r := dtTop n ps; ("_" :: r.1, r.2.1, r.2.2)
+  | .tuple sub :: ps => let r := dtTop (n + 1) ps; (dtName n :: r.1, (sub, dtName n) :: r.2.1, r.2.2)
+
+/-- `translate_let_tuple_pattern(pats, translated_val, translated_body)`; `depth` bounds the nesting of the pattern -/
+def trLetTuple (depth : Nat) (n : Nat) (pats : List Pat) (val body : Ex) : Ex × Nat :=
+  match depth with
+  | 0 => (ap "code_let_tuple" [.arr [], val, body], n)
+  | depth + 1 =>
+    let (names, nested, n1) := dtTop n pats
+    -- nested tuples are processed in reverse order, each wrapping the body built so far
+    let (body', n2) := nested.reverse.foldl
+      (fun (acc : Ex × Nat) (w : List Pat × String) => trLetTuple depth acc.2 w.1 (ap "code_var" [.str w.2]) acc.1) (body, n1)
+    (ap "code_let_tuple" [.arr (names.map .str), val, body'], n2)
 
 /-! ## stage-0 execution (`compile_and_execute_stage0`) -/
 
